@@ -98,8 +98,9 @@ OPS = {'d': 'ExteriorDerivative', 'delta': 'AdjointExteriorDerivative', 'hodge':
 class Gen:
     """random user-level programs; a program is a nested tuple"""
 
-    def __init__(self, rng, n, maxdepth):
-        self.rng, self.n, self.maxdepth = rng, n, maxdepth
+    def __init__(self, rng, n, maxdepth, degs=None):
+        # degs: the degrees the forms (leaves) are drawn from; None = all of 0..n
+        self.rng, self.n, self.maxdepth, self.degs = rng, n, maxdepth, degs
 
     POOL = ('c1', 'c2', 'c3')
 
@@ -144,7 +145,7 @@ class Gen:
     def form(self, k=None):
         r = self.rng
         if k is None:
-            k = r.randint(0, self.n)
+            k = r.choice(self.degs) if self.degs else r.randint(0, self.n)
         # the name encodes degree and dimension: DifferentialForm compares by name only (a
         # same-named form of another dimension met earlier in the interpreter would be
         # substituted by sympy's cache — that history leak is a C12 matter, kept out of C19)
@@ -166,6 +167,31 @@ class Gen:
         if k < 0.88:
             return ('hodge', self.prog(depth + 1))
         return ('wedge', self.prog(depth + 1), self.prog(depth + 1))
+
+    def chain(self):
+        """a word of 2..4 operators over a linear combination of forms of the extreme degrees (0 and n,
+        where d resp. delta have their short-cuts): the degree of every intermediate expression is
+        reached through the operators only and differs from the degree of the form atoms inside —
+        d(hodge(u_n)), delta(hodge(z_0)), d(c*delta(u_n + 2*v_n)), hodge(d(hodge(u_n))); sometimes with
+        a coefficient between two operators and a summand of the same degree next to the argument of the
+        last operator (d(hodge(u_n) + wedge(f_0, g_0)): a lost term stays unnoticed in the sum)"""
+        r = self.rng
+        k0 = r.choice([self.n, self.n, 0])
+        p = self.lin(lambda k: k == k0)
+        ops = [r.choice(['hodge', 'hodge', 'delta' if k0 else 'd'])]
+        for _ in range(r.choice([1, 1, 2, 3])):
+            ops.append(r.choice([o for o in ('d', 'delta', 'hodge') if o != ops[-1] or o == 'hodge']))
+        for i, op in enumerate(ops):
+            if i and r.random() < 0.3:
+                p = ('cmul', self.coef(), p)
+            if i == len(ops) - 1 and r.random() < 0.35:
+                k = degree(p, self.n)
+                if k != 'refused' and 0 <= k <= self.n:
+                    j = r.randint(0, k)
+                    other = self.form(k) if r.random() < 0.4 else ('wedge', self.form(j), self.form(k - j))
+                    p = ('add', [p, other])
+            p = (op, p)
+        return p
 
     def lin(self, pred, terms=None):
         """linear combination of forms whose degree satisfies pred"""
@@ -434,6 +460,248 @@ def deg_value(v, n, m):
     return r if 0 <= r <= 6 else 'refused'
 
 
+class Outside(Exception):
+    """the expression is outside the language the concrete model interprets"""
+
+
+class Concrete:
+    """An explicit model of the exterior algebra, the ground truth of the `concrete:` cases.
+
+    Every DifferentialForm symbol `name` of degree k stands for one fixed k-form on R^n whose
+    components are polynomials (a dict: increasing index tuple I -> polynomial, a polynomial being a
+    dict: exponent tuple -> Fraction); every Constant stands for a fixed positive rational (a perfect
+    square, so that c**(1/2), c**(3/2) stay rational).  d (sum_i dx_i ^ d/dx_i), the Euclidean Hodge
+    star (dx_I -> sign(I, J) dx_J with J the complement), delta = (-1)^(n(k+1)+1) * d * on the
+    k-component and the wedge product are computed by hand on these dicts, component by component
+    (so sums of different degrees need no special care).  Nothing of sympde is used except the
+    classes of the returned expression tree, which `interp` reads.
+
+    The laws sympde applies (d d = 0, delta delta = 0, d of an n-form, delta of a 0-form,
+    ** = (-1)^(k(n-k)), linearity over constants, bilinearity of the wedge) hold exactly in this model,
+    so a correct evaluation never differs; the arithmetic is exact (Fractions), so there is no
+    tolerance.  A value that is 0 in the model only because the polynomials ran out of degree costs
+    sensitivity, never soundness; the degrees are chosen so that 5 nested derivatives survive."""
+
+    def __init__(self, n, m):
+        self.n, self.m = n, m
+        self.forms, self.consts, self.memo = {}, {}, {}
+
+    # --- polynomials -------------------------------------------------------------------------
+    @staticmethod
+    def padd(p, q, s=1):
+        out = dict(p)
+        for e, c in q.items():
+            v = out.get(e, 0) + s * c
+            if v:
+                out[e] = v
+            else:
+                out.pop(e, None)
+        return out
+
+    @staticmethod
+    def pmul(p, q):
+        out = {}
+        for e, c in p.items():
+            for f, b in q.items():
+                g = tuple(x + y for x, y in zip(e, f))
+                v = out.get(g, 0) + c * b
+                if v:
+                    out[g] = v
+                else:
+                    out.pop(g, None)
+        return out
+
+    @staticmethod
+    def pdiff(p, i):
+        out = {}
+        for e, c in p.items():
+            if e[i]:
+                out[e[:i] + (e[i] - 1,) + e[i + 1:]] = c * e[i]
+        return out
+
+    @staticmethod
+    def sign(seq):
+        s = 1
+        for i in range(len(seq)):
+            for j in range(i + 1, len(seq)):
+                if seq[i] > seq[j]:
+                    s = -s
+        return s
+
+    # --- forms ---------------------------------------------------------------------------------
+    def put(self, out, I, p, s=1):
+        q = self.padd(out.get(I, {}), p, s)
+        if q:
+            out[I] = q
+        else:
+            out.pop(I, None)
+
+    def add(self, *fs):
+        out = {}
+        for f in fs:
+            for I, p in f.items():
+                self.put(out, I, p)
+        return out
+
+    def scale(self, c, f):
+        return {I: {e: c * v for e, v in p.items()} for I, p in f.items()} if c else {}
+
+    def d(self, f):
+        out = {}
+        for I, p in f.items():
+            for i in range(self.n):
+                if i in I:
+                    continue
+                dp = self.pdiff(p, i)
+                if dp:
+                    self.put(out, tuple(sorted(I + (i,))), dp, self.sign((i,) + I))
+        return out
+
+    def hodge(self, f):
+        out = {}
+        for I, p in f.items():
+            J = tuple(i for i in range(self.n) if i not in I)
+            self.put(out, J, p, self.sign(I + J))
+        return out
+
+    def delta(self, f):
+        out = {}
+        for I, p in f.items():
+            g = self.hodge(self.d(self.hodge({I: p})))
+            for J, q in g.items():
+                self.put(out, J, q, (-1) ** (self.n * (len(I) + 1) + 1))
+        return out
+
+    def wedge(self, f, g):
+        out = {}
+        for I, p in f.items():
+            for J, q in g.items():
+                if set(I) & set(J):
+                    continue
+                self.put(out, tuple(sorted(I + J)), self.pmul(p, q), self.sign(I + J))
+        return out
+
+    def generic(self, name, k):
+        """the k-form a DifferentialForm symbol stands for: every component has the monomial
+        (x1*...*xn)**E (so no partial derivative of it vanishes) and two random ones; fixed by
+        (name, k, n) alone"""
+        import random
+        from fractions import Fraction
+        from itertools import combinations
+        key = (name, k)
+        if key not in self.forms:
+            rng = random.Random('C19/concrete/%s/%d/%d' % (name, k, self.n))
+            E = max(2, 7 - self.n)
+            f = {}
+            for I in combinations(range(self.n), k):
+                p = {(E,) * self.n: Fraction(rng.randint(1, 5))}
+                for _ in range(2):
+                    e = tuple(rng.randint(0, E) for _ in range(self.n))
+                    p[e] = p.get(e, 0) + Fraction(rng.randint(1, 5))
+                f[I] = p
+            self.forms[key] = f
+        return self.forms[key]
+
+    def const(self, e):
+        """value of a factor without differential forms: Constants -> 4, 9, 16, ... (in the order they
+        are met), then sympy's own arithmetic on numbers"""
+        from fractions import Fraction
+        from sympy import Symbol, Integer, sympify
+        e = sympify(e)
+        for s in sorted(e.atoms(Symbol), key=str):
+            if s not in self.consts:
+                self.consts[s] = Integer((len(self.consts) + 2) ** 2)
+        v = e.xreplace(self.consts)
+        if not v.is_Rational:
+            raise Outside(str(e))
+        return Fraction(int(v.p), int(v.q))
+
+    def interp(self, e):
+        """the form an expression returned by (or passed to) the API denotes"""
+        from sympy import Add, Mul, sympify
+        m = self.m
+        e = sympify(e)
+        if e in self.memo:
+            return self.memo[e]
+        if e == 0:
+            r = {}
+        elif isinstance(e, m['DifferentialForm']):
+            if int(e.dim) != self.n:
+                raise Outside(str(e))
+            r = self.generic(str(e.name), int(e.index.index))
+        elif isinstance(e, m['ExteriorDerivative']):
+            r = self.d(self.interp(e.args[0]))
+        elif isinstance(e, m['AdjointExteriorDerivative']):
+            r = self.delta(self.interp(e.args[0]))
+        elif isinstance(e, m['Hodge']):
+            r = self.hodge(self.interp(e.args[0]))
+        elif isinstance(e, m['ExteriorProduct']):
+            r = self.wedge(self.interp(e.args[0]), self.interp(e.args[1]))
+        elif isinstance(e, Add):
+            r = self.add(*[self.interp(a) for a in e.args])
+        elif isinstance(e, Mul):
+            vs = [a for a in e.args if a.atoms(m['DifferentialForm'])]
+            if len(vs) != 1:
+                raise Outside(str(e))
+            r = self.scale(self.const(Mul(*[a for a in e.args if a is not vs[0]])), self.interp(vs[0]))
+        else:
+            raise Outside(str(e))
+        self.memo[e] = r
+        return r
+
+    def show(self, f):
+        """short description of a form of the model"""
+        if not f:
+            return '0'
+        ks = sorted({len(I) for I in f})
+        I = min(f)
+        mono = ' + '.join('%s*%s' % (c, '*'.join('x%d^%d' % (i + 1, x) for i, x in enumerate(e) if x) or '1')
+                          for e, c in sorted(f[I].items(), reverse=True)[:3])
+        return 'a nonzero form of degree %s with %d component(s), e.g. the coefficient of %s is %s%s' % (
+            '/'.join(map(str, ks)), len(f), '^'.join('dx%d' % (i + 1) for i in I) or '1', mono,
+            ' + ...' if len(f[I]) > 3 else '')
+
+
+def concrete_selftest(m):
+    """the model against identities the implementation does not use (Leibniz rule, graded commutativity) and
+    against the laws it does; a failure is an error of the harness (the oracle crashes: exit 2), never a verdict"""
+    for n in range(1, 5):
+        cm = Concrete(n, m)
+        for k in range(n + 1):
+            f, g = cm.generic('u', k), cm.generic('v', k)
+            assert cm.d(cm.d(f)) == {} and cm.delta(cm.delta(f)) == {}
+            assert cm.hodge(cm.hodge(f)) == cm.scale((-1) ** (k * (n - k)), f)
+            assert (cm.d(f) != {}) == (k < n) and (cm.delta(f) != {}) == (k > 0)
+            assert cm.d(cm.add(cm.scale(3, f), g)) == cm.add(cm.scale(3, cm.d(f)), cm.d(g))
+            for l in range(n + 1 - k):
+                h = cm.generic('w', l)
+                assert cm.d(cm.wedge(f, h)) == cm.add(cm.wedge(cm.d(f), h), cm.scale((-1) ** k, cm.wedge(f, cm.d(h))))
+                assert cm.wedge(f, h) == cm.scale((-1) ** (k * l), cm.wedge(h, f))
+
+
+def concrete_check(o, n, apps, m, label=''):
+    """every recorded operator application (op, args, result) against the concrete model:
+    op_model(interp(args)) == interp(result).  One failing application = one failing input."""
+    cm = Concrete(n, m)
+    for op, args, res in apps:
+        try:
+            vals = [cm.interp(a) for a in args]
+            got = cm.interp(res)
+        except Outside:
+            o.count('concrete:outside-language')
+            continue
+        want = getattr(cm, op)(*vals)
+        o.count('concrete:' + op)
+        o.count('concrete:value-' + ('nonzero' if want else 'zero'))
+        if want != got:
+            call = '%s(%s)' % (op, ', '.join(str(a) for a in args))
+            o.fail('concrete:%d:%s' % (n, call),
+                   '%s (dim %d) returned %s, which is not the value of the expression: with every form symbol read '
+                   'as an explicit polynomial form on R^%d, %s is %s, the returned expression is %s%s'
+                   % (call, n, res, n, call, cm.show(want), cm.show(got), label),
+                   dim=n, call=call, returned=str(res))
+
+
 def oracle(ctx, factor, seeds):
     o = Oracle()
     m = _mods()
@@ -457,7 +725,31 @@ def oracle(ctx, factor, seeds):
         (4, ('wedge', ('cmul', ('pow', 'c', ('int', -1)), ('form', 'u1_4', 1)),
              ('cmul', ('pow', 'c', ('rat', 1, 2)), ('form', 'w2_4', 2)))),
     ]
+    # operators whose argument reaches its degree only through other operators, over forms of the
+    # extreme degrees n and 0 (where d resp. delta have a short-cut that is right for the forms themselves
+    # and for their linear combinations only): d(hodge(u_n)) is d of a 0-form, delta(hodge(z_0)) is delta of
+    # an n-form, d(delta(u_n)), delta(d(z_0)) — none of them is 0.  Judged by the concrete model.
+    def F(ch, k, n):
+        return ('form', '%s%d_%d' % (ch, k, n), k)
+    for n in (1, 2, 3, 4, 6):
+        fixed += [(n, ('d', ('hodge', F('u', n, n)))), (n, ('delta', ('hodge', F('z', 0, n))))]
+    for n in (2, 3):
+        un, vn, z0, w0 = F('u', n, n), F('v', n, n), F('z', 0, n), F('w', 0, n)
+        fixed += [
+            (n, ('d', ('cmul', ('cst', 'c'), ('hodge', un)))),
+            (n, ('d', ('hodge', ('add', [un, ('cmul', ('int', 3), vn)])))),
+            (n, ('d', ('delta', un))),
+            (n, ('hodge', ('d', ('hodge', un)))),
+            (n, ('d', ('add', [('hodge', un), ('wedge', z0, w0)]))),
+            (n, ('d', ('add', [('cmul', ('pow', 'c', ('int', 2)), ('hodge', un)), ('delta', F('v', 1, n))]))),
+            (n, ('delta', ('d', z0))),
+            (n, ('delta', ('cmul', ('rat', 1, 2), ('hodge', ('add', [z0, w0]))))),
+            (n, ('delta', ('add', [('hodge', z0), ('wedge', un, w0)]))),
+            (n, ('d', ('d', ('hodge', un)))),          # these two are 0
+            (n, ('d', ('add', [('cmul', ('int', 2), un), vn]))),
+        ]
     progs = list(fixed)
+    concrete_selftest(m)
     # witness of the finding C19-coef-pow (fixed by 5022685: a power of a Constant was not recognised as
     # a coefficient); kept under its key, so the violation is reported if the behaviour returns
     c = m['Constant']('c')
@@ -506,6 +798,38 @@ def oracle(ctx, factor, seeds):
     for i in range(nprog):
         n = ctx.rng.randint(1, 6)
         progs.append((n, Gen(ctx.rng, n, maxdepth).prog()))
+    for i in range(nprog // 4):
+        # the same shapes at random: operator words over extreme-degree forms, and whole random programs
+        # whose forms all have degree n, all degree 0, or one of the two
+        n = ctx.rng.randint(1, 6)
+        if i % 2:
+            progs.append((n, Gen(ctx.rng, n, maxdepth).chain()))
+        else:
+            progs.append((n, Gen(ctx.rng, n, maxdepth, degs=ctx.rng.choice([[n], [n], [0], [0, n]])).prog(1)))
+    # operator applications on which model and implementation disagreed in the correspondence run (only
+    # in the failing-input search): judged by the concrete model like every other application
+    ser = Ser()
+    for line in seeds or []:
+        try:
+            parts = str(line).split(' ', 3)
+            if parts[:2] == ['C19', 'eval']:
+                op, trees = parts[2], loads_all(parts[3])
+            elif parts[:2] == ['C19', 'wedge']:
+                op, trees = 'wedge', loads_all(str(line).split(' ', 2)[2])
+            else:
+                continue
+            args = [ser.build(t) for t in trees]
+            dims = {int(f.dim) for a in args for f in a.atoms(m['DifferentialForm'])}
+            if len(dims) != 1:
+                continue
+            rr = Runner(dims.pop())
+            rr.apply(op, *args)
+        except Exception:
+            o.count('concrete:seed-not-rebuilt')
+            continue
+        o.evaluations += 1
+        o.count('concrete:seed-from-correspondence')
+        concrete_check(o, rr.n, rr.apps, m, ' [argument taken from a correspondence disagreement]')
     for n, p in progs:
         g = Gen(ctx.rng, n, 3)
         g.k = 100     # constants of the auxiliary programs never coincide with those of p
@@ -522,6 +846,14 @@ def oracle(ctx, factor, seeds):
             o.count('value-has-coef-power')
         if len(o.samples) < 4:
             o.samples.append({'dim': n, 'program': ps, 'value': str(v)})
+        # every operator application of the program against the explicit model of the exterior algebra
+        concrete_check(o, n, r.apps, m, ' [program %s]' % ps)
+        if any(op == 'd' and not isinstance(a[0], m['DifferentialForm']) and sympify(a[0]).atoms(m['DifferentialForm'])
+               and all(int(f.index.index) == n for f in a[0].atoms(m['DifferentialForm'])) for op, a, _ in r.apps):
+            o.count('shape:d-of-composite-over-top-forms')
+        if any(op == 'delta' and not isinstance(a[0], m['DifferentialForm']) and sympify(a[0]).atoms(m['DifferentialForm'])
+               and all(int(f.index.index) == 0 for f in a[0].atoms(m['DifferentialForm'])) for op, a, _ in r.apps):
+            o.count('shape:delta-of-composite-over-0-forms')
         # nilpotency: literal zero
         for name, op in (('d', D), ('delta', DL)):
             r2 = op(op(v))
